@@ -49,12 +49,12 @@ tvars == <<vars, l, cid, cur, mon, viol, nviol, vflag, cvars, ncases, nnull, nin
 
 MaxViolPerStream == 40
 
-NoStream == [n |-> 0, elems |-> <<>>, chars |-> <<>>, sync |-> <<>>]
+NoStream == [n |-> 0, elems |-> <<>>, chars |-> <<>>, sync |-> <<>>, bnd |-> <<>>, held |-> <<>>]
 Cur0 == [sid |-> "", at |-> 0, ref |-> <<>>, has |-> FALSE, nv |-> 0]
 Mon0 == [sid |-> "", isRef |-> FALSE, known |-> FALSE, d |-> <<>>, pos |-> 0]
 
 TInit ==
-    /\ sid = "" /\ stream = NoStream
+    /\ sid = ""
     /\ pos = 0 /\ carry = 0 /\ buf = [lo |-> 0, hi |-> 0] /\ hdr = 0
     /\ garbled = {} /\ delivered = <<>> /\ hist = <<>>
     /\ l = 1 /\ cid = "" /\ cur = Cur0 /\ mon = Mon0 /\ viol = <<>> /\ nviol = 0 /\ vflag = FALSE
@@ -63,6 +63,8 @@ TInit ==
 
 \* the stream description is read from the log where it was defined (kept out of the state)
 CurStream == IF cur.at = 0 THEN NoStream ELSE TraceLog[cur.at].s
+\* ... the one the model runs on in the current execution
+MS == IF mon.known THEN CurStream ELSE NoStream
 
 \* observed deliveries of one line, null elements projected away; content = kind + digest
 Real(dl)  == SelectSeq(dl, LAMBDA x : x.k # "null")
@@ -81,7 +83,7 @@ StreamStep(ev) ==
 
 ResetStep(ev) ==
     LET known == ev.sid = cur.sid /\ cur.at # 0 IN
-    /\ Reinit(ev.sid, IF known THEN CurStream ELSE NoStream)
+    /\ Reinit(ev.sid)
     /\ cid' = ev.case /\ dflag' = FALSE /\ vflag' = FALSE /\ ncases' = ncases + 1
     /\ mon' = [Mon0 EXCEPT !.sid = ev.sid, !.isRef = ev.ref, !.known = known]
     /\ norphan' = IF known THEN norphan ELSE norphan + 1
@@ -100,7 +102,7 @@ Violate(bad, rec) ==
     /\ cur' = IF bad /\ ~vflag THEN [cur EXCEPT !.nv = cur.nv + 1] ELSE cur
 
 ReadStep(ev) ==
-    /\ IF CanRead(ev.n) THEN Read(ev.n) ELSE UNCHANGED vars
+    /\ IF CanRead(MS, ev.n) THEN Read(MS, ev.n) ELSE UNCHANGED vars
     /\ LET nd  == mon.d \o Obs(ev.dl)
            chk == mon.known /\ ~mon.isRef /\ cur.has
            p   == IF ~P_Grow(mon.d, nd) THEN "Grow"
@@ -110,7 +112,7 @@ ReadStep(ev) ==
                               pos |-> mon.pos + ev.n, nd |-> Len(nd)])
           \* compare: what the model delivered in this step vs what the code delivered
           /\ LET mk == [i \in 1..(Len(delivered') - Len(delivered)) |-> delivered'[Len(delivered) + i].k]
-             IN Diverge(mk # Kinds(ev.dl) \/ ~CanRead(ev.n),
+             IN Diverge(mk # Kinds(ev.dl) \/ ~CanRead(MS, ev.n),
                         [case |-> cid, line |-> l, model |-> mk, impl |-> Kinds(ev.dl)])
     /\ nnull' = nnull + Nulls(ev.dl)
     /\ ninexact' = IF ev.o.rr # 1 THEN ninexact + 1 ELSE ninexact
@@ -124,7 +126,7 @@ EndStep(ev) ==
             /\ nrefs' = nrefs + 1
             /\ UNCHANGED <<viol, nviol, vflag>>
             \* compare: the one-read run against the model's Reference (kinds)
-            /\ LET rk == [i \in 1..Len(Reference(stream)) |-> Reference(stream)[i].k]
+            /\ LET rk == [i \in 1..Len(Reference(MS)) |-> Reference(MS)[i].k]
                    ik == [i \in 1..Len(delivered) |-> delivered[i].k]
                IN Diverge(Len(mon.d) # Len(rk) \/ ik # rk \/ pos # ev.o.pos,
                           [case |-> cid, line |-> l, model |-> rk, impl |-> <<"delivered", Len(mon.d), "pos", ev.o.pos>>])
